@@ -115,3 +115,63 @@ Example C16_sample0_load :
     [(false, false, false); (false, false, true); (false, true, false); (false, true, true);
      (true, false, false); (true, false, true); (true, true, false); (true, true, true)] = true.
 Proof. by vm_compute. Qed.
+
+(** The same function in the two other supported modes.  [.varinfo 1]: the
+    node lines carry PERMIDS (here 4, 7, 9 of 50: gaps between the levels);
+    [.varinfo 3]: they carry variable NAMES and the levels come from
+    [.orderedvarnames] (here variable 2 on top, then 0, then 1, so variable 2
+    plays [a], 0 plays [b], 1 plays [c]). *)
+Definition sample1_header : dheader :=
+  DHeader 50 1 None (Some [0; 1; 2]) 3 [1; 2; 3] [4; 7; 9] (Some [4; 7; 9]) 1 [(-5)%Z] 5.
+Definition sample1_nodes : list dnode :=
+  [DNode 1 DTerm 0 0; DNode 2 (DInt 9) 1 (-1); DNode 3 (DInt 7) 1 2;
+   DNode 4 (DInt 7) 1 (-2); DNode 5 (DInt 4) 3 4].
+Definition sample3_header : dheader :=
+  DHeader 3 3 (Some [2; 0; 1]) (Some [0; 1; 2]) 3 [0; 1; 2] [0; 1; 2] None 1 [(-5)%Z] 5.
+Definition sample3_nodes : list dnode :=
+  [DNode 1 DTerm 0 0; DNode 2 (DName 1) 1 (-1); DNode 3 (DName 0) 1 2;
+   DNode 4 (DName 0) 1 (-2); DNode 5 (DName 2) 3 4].
+
+Example C16_sample1_hypotheses :
+  let h := sample1_header in
+  ∃ i2p L tbl,
+    header_ok h = true ∧
+    info2permid h empty_st = (Ok i2p, empty_st) ∧
+    file_levels h empty_st = (Ok L, empty_st) ∧
+    parse_body h i2p sample1_nodes empty_st = (Ok tbl, empty_st) ∧
+    bool_decide (NoDup (L.*1)) = true ∧ bool_decide (NoDup (L.*2)) = true ∧
+    wf_file_b tbl L = true ∧
+    forallb (fun u => bool_decide (u ≠ 0%Z ∧ is_Some (alist_get tbl (absn u)))) (dh_roots h) = true.
+Proof. do 3 eexists. by vm_compute. Qed.
+Example C16_sample3_hypotheses :
+  let h := sample3_header in
+  ∃ i2p L tbl,
+    header_ok h = true ∧
+    info2permid h empty_st = (Ok i2p, empty_st) ∧
+    file_levels h empty_st = (Ok L, empty_st) ∧
+    parse_body h i2p sample3_nodes empty_st = (Ok tbl, empty_st) ∧
+    bool_decide (NoDup (L.*1)) = true ∧ bool_decide (NoDup (L.*2)) = true ∧
+    wf_file_b tbl L = true ∧
+    forallb (fun u => bool_decide (u ≠ 0%Z ∧ is_Some (alist_get tbl (absn u)))) (dh_roots h) = true.
+Proof. do 3 eexists. by vm_compute. Qed.
+
+Example C16_sample1_load :
+  let '(w, r) := step_dddmp world2_empty 0 sample1_header sample1_nodes in
+  let s := world2_get w 0 in
+  r = Ok (VL [VZ (-5)]) ∧ map_to_list (vars s) = [(0, 0); (1, 1); (2, 2)] ∧
+  forallb (fun '(a, b, c) =>
+    bool_decide (denv s (-5) (fun v => match v with 0 => a | 1 => b | _ => c end) =
+                 negb ((a && (b || c)) || (negb a && (b || negb c)))))
+    [(false, false, false); (false, false, true); (false, true, false); (false, true, true);
+     (true, false, false); (true, false, true); (true, true, false); (true, true, true)] = true.
+Proof. by vm_compute. Qed.
+Example C16_sample3_load :
+  let '(w, r) := step_dddmp world2_empty 0 sample3_header sample3_nodes in
+  let s := world2_get w 0 in
+  r = Ok (VL [VZ (-5)]) ∧ map_to_list (vars s) = [(0, 1); (1, 2); (2, 0)] ∧
+  forallb (fun '(a, b, c) =>
+    bool_decide (denv s (-5) (fun v => match v with 2 => a | 0 => b | _ => c end) =
+                 negb ((a && (b || c)) || (negb a && (b || negb c)))))
+    [(false, false, false); (false, false, true); (false, true, false); (false, true, true);
+     (true, false, false); (true, false, true); (true, true, false); (true, true, true)] = true.
+Proof. by vm_compute. Qed.
